@@ -151,14 +151,21 @@ pub fn gen_case(rng: &mut Rng, o: &GenOpts, max_exchanges: usize) -> ExchangeCas
     let mut reqs = Vec::new();
     let mut resps = Vec::new();
     for _ in 0..n {
+        // split right after the head, or late: after a few body pieces were read on the whole
+        // stream (the split may then fall in the middle of a DATA frame)
+        let late = |rng: &mut Rng, split: bool| if split && rng.chance(1, 2) { Some(rng.usize(4)) } else { None };
+        let split = rng.chance(1, 3);
         reqs.push(ReqPlan {
             req: msggen::gen_request(rng, o),
-            split: rng.chance(1, 3),
+            split,
+            late_split: late(rng, split),
             ..Default::default()
         });
+        let split = rng.chance(1, 3);
         resps.push(RespPlan {
             resp: msggen::gen_response(rng, o),
-            split: rng.chance(1, 3),
+            split,
+            late_split: late(rng, split),
             ..Default::default()
         });
     }
@@ -478,6 +485,12 @@ pub fn evaluate(c: &ExchangeCase, r: &RunResult, rep: &mut Report, buf_name: &st
     for (i, q) in c.reqs.iter().enumerate() {
         rep.count("exchanges_checked");
         rep.count(if q.split { "mode[split]" } else { "mode[whole]" });
+        if q.split && q.late_split.is_some() {
+            rep.count("mode[client split after reading part of the response body]");
+        }
+        if c.resps.get(i).map(|p| p.split && p.late_split.is_some()).unwrap_or(false) {
+            rep.count("mode[server split after reading part of the request body]");
+        }
         let cact = format!("c:req#{}", i);
         let cevs: Vec<Ev> = evs.iter().filter(|e| e.actor == cact || e.actor.starts_with(&format!("{}:", cact))).cloned().collect();
         if let Some(e) = first_err(&cevs) {
